@@ -44,20 +44,21 @@ def run(ctx):
     for g in graphs:
         cases.append({"graph": g["graph"]})
     for sp in ("lenstm", "len2cycle",        # cycles that run through stream /Length entries
-               "ladder-kids", "ladder-dict"):  # acyclic graphs that are not trees: 2^28 paths through 28 levels
+               "ladder-kids", "ladder-dict",   # acyclic graphs that are not trees: 2^28 paths through 28 levels
+               "xref-index-odd", "xref-w000"): # /Index of odd length; zero-width entries x 2^31 announced entries
         cases.append({"special": sp})
     for f in faults:
         cases.append({"fmt": f["fmt"], "faults": f["faults"], "k": k})
     # numeric fields: every site of every base document, every extreme value (sizes, counts, widths, offsets)
-    for fmt in ("pdf-classic", "pdf-stream", "pdf-png", "pdf-tiff", "docx", "odt", "xlsx", "pptx", "epub", "html"):
+    for fmt in ("pdf-classic", "pdf-stream", "pdf-png", "pdf-tiff", "pdf-ttf", "docx", "odt", "xlsx", "pptx", "epub", "html"):
         for val in ("0", "-1", "2147483648", "9223372036854775807"):
             cases.append({"fmt": fmt, "faults": [{"kind": "number", "site": 0, "param": val}], "all": True})
     # ... the same fields replaced before the file is laid out (offsets and lengths stay consistent with the bytes)
-    for fmt in ("pdf-classic", "pdf-stream", "pdf-png", "pdf-tiff"):
+    for fmt in ("pdf-classic", "pdf-stream", "pdf-png", "pdf-tiff", "pdf-ttf"):
         for val in ("0", "-1", "2147483648", "9223372036854775807"):
             cases.append({"fmt": fmt, "faults": [{"kind": "field", "site": 0, "param": val}], "all": True})
     # ... and the numeric fields inside encoded streams: object-stream headers, cross-reference-stream rows
-    for fmt in ("pdf-stream", "pdf-png"):
+    for fmt in ("pdf-stream", "pdf-png", "pdf-ttf"):
         for val in ("0", "-1", "2147483648", "9223372036854775807"):
             cases.append({"fmt": fmt, "faults": [{"kind": "instream", "site": 0, "param": val}], "all": True})
     for fmt in ("pdf-classic", "pdf-stream", "pdf-png", "pdf-tiff"):
